@@ -24,11 +24,16 @@ def make_dev_class():
     class Dev(BaseIOPort):
         """Device double: `_receive` consumes one step of a script (arrivals, closes itself)."""
 
-        def _open(self, script=None, **kwargs):
+        def _open(self, script=None, budget=None, **kwargs):
             self.script = [(list(a), c) for a, c in (script or [])]
             self.log = []
+            self.budget = budget        # device fault: number of _send calls that still succeed (None: healthy)
 
         def _send(self, msg):
+            if self.budget is not None:
+                if self.budget <= 0:
+                    raise OSError('device unplugged')
+                self.budget -= 1
             self.log.append('s%d' % ident(msg))
 
         def _close(self):
